@@ -345,13 +345,13 @@ def r08g(ctx):
 
 
 def run(ctx):
-    r08a(ctx)
-    r08b(ctx)
-    r08c(ctx)
-    r08d(ctx)
-    r08e(ctx)
-    r08f(ctx)
-    r08g(ctx)
+    ctx.guard(r08a)
+    ctx.guard(r08b)
+    ctx.guard(r08c)
+    ctx.guard(r08d)
+    ctx.guard(r08e)
+    ctx.guard(r08f)
+    ctx.guard(r08g)
 
 
 SELFTEST = {
